@@ -183,15 +183,20 @@ def lean_check(modules, tier):
                 res["failures"].append("axiom audit failed to run: " + text[:300])
             else:
                 for blk in re.finditer(r"'([^']+)' (does not depend on any axioms|depends on axioms: \[([^\]]*)\])", text):
-                    name = blk.group(1).split(".")[-1]
+                    name = blk.group(1)
                     ax = set(a.strip() for a in (blk.group(3) or "").replace("\n", " ").split(",") if a.strip())
                     res["axioms"][name] = sorted(ax)
                 ok = 0
+                full = res["axioms"]
+                res["axioms"] = {}
                 for _, t in thms:
-                    if t not in res["axioms"]:
+                    hit = [k for k in full if k == t or k.endswith("." + t)]
+                    if not hit:
                         res["failures"].append("no axiom report for %s" % t)
-                    elif set(res["axioms"][t]) - ALLOWED_AXIOMS:
-                        res["failures"].append("%s uses axioms %s" % (t, res["axioms"][t]))
+                        continue
+                    res["axioms"][t] = full[hit[0]]
+                    if set(full[hit[0]]) - ALLOWED_AXIOMS:
+                        res["failures"].append("%s uses axioms %s" % (t, full[hit[0]]))
                     else:
                         ok += 1
                 res["discharged"] = ok + (1 if not scan else 0)
